@@ -48,6 +48,7 @@ WIRE_PROPS = ('C01', 'C02', 'C03', 'C04', 'C05', 'C11')      # properties whose 
 
 # which translated functions a property's <prop>T module is about (a function of another group leaving the subset is not this property's business)
 WIRE_GROUPS = {'C11': ('derive_session_event', 'mac_equal'), 'C05': ('mapper_matches', 'set_active_mapper', 'compareEthernetAddress')}
+WIRE_LINUX = ('lltd_port_get_mtu', 'lltd_port_get_mac_address', 'lltd_port_get_characteristics_flags', 'lltd_port_get_if_type', 'lltd_port_get_link_speed_100bps')
 WIRE_FAILED = {}
 
 
@@ -56,8 +57,8 @@ def translate_status(prop):
         return TRANSLATE_STATUS
     if not WIRE_STATUS[0]:
         return WIRE_STATUS
-    special = set(f for fs in WIRE_GROUPS.values() for f in fs)
-    mine = [f for f in WIRE_FAILED if (f in WIRE_GROUPS[prop] if prop in WIRE_GROUPS else f not in special)]
+    special = set(f for fs in WIRE_GROUPS.values() for f in fs) | set(WIRE_LINUX)      # the Linux port's getters are C04's business only
+    mine = [f for f in WIRE_FAILED if (f in WIRE_GROUPS[prop] if prop in WIRE_GROUPS else (f not in special or (prop == 'C04' and f in WIRE_LINUX)))]
     if mine:
         return (False, 'c2lean_wire: %s left the translatable subset: %s' % (', '.join(sorted(mine)), '; '.join(WIRE_FAILED[f] for f in sorted(mine))))
     return WIRE_STATUS
